@@ -138,6 +138,7 @@ def parseOp (toks : List String) : Option Op :=
   | ["setlen", v, k, p] => do pure (.setLenSpare (← v.toNat?) (← k.toNat?) (← parsePath p))
   | ["rawrt", v] => do pure (.rawrt (← v.toNat?))
   | ["rawparts", v] => do pure (.rawparts (← v.toNat?))
+  | ["iterc", v, pre, post] => do pure (.iterClone (← v.toNat?) (← parseEnds pre) (← parseEnds post))
   | ["lazydc", v, i, dp, ty] => do pure (.lazyDc (← v.toNat?) (← i.toNat?) (← dp.toNat?) (← ty.toNat?))
   | ["release"] => some .release
   | ["dropvec", v] => do pure (.dropVec (← v.toNat?))
